@@ -13,5 +13,5 @@ Separate Extraction
   Z.add Z.sub Z.mul Z.div Z.modulo Z.opp Z.eqb Z.ltb Z.leb Z.of_nat Z.to_nat Z.div_eucl Z.abs
   Isa.f_op Isa.f_rd Isa.f_f3 Isa.f_rs1 Isa.f_rs2 Isa.f_f7 Isa.immf_i Isa.immf_s Isa.immf_b Isa.immf_u Isa.immf_j
   Isa.decode Isa.encode_spec Isa.wf Isa.ext_ok
-  Machine.step Machine.run Machine.rget Machine.rset Machine.store_bytes Machine.load_bytes Machine.make_layout Machine.make_state Machine.empty_map Machine.st_pc Machine.st_dom Machine.st_cfi Machine.st_mem
+  Machine.step Machine.run Machine.rget Machine.rset Machine.store_bytes Machine.load_bytes Machine.make_layout Machine.make_state Machine.empty_map Machine.st_pc Machine.st_dom Machine.st_cfi Machine.st_mem Machine.st_regs Machine.variant_ext Machine.lwidth Machine.swidth
   CtorSpec.meaning CtorSpec.wf_args CtorSpec.in_range CtorSpec.ctor_ext.
